@@ -128,7 +128,7 @@ def run(rep, which, tier):
     if tier == 'thorough':
         levels, modes = list(range(-1, 18)), list(range(0, 26))
     else:
-        levels, modes = list(range(-1, 13)) + [17], list(range(0, 22)) + [25]
+        levels, modes = list(range(-1, 18)), list(range(0, 22)) + [25]
     res = genbb.grid(D, names if i2 == 1 else [], names if i2 == 2 else [], levels, modes)
     points = 0
     roots = set()
@@ -144,7 +144,7 @@ def run(rep, which, tier):
     # names the reference does not know (C++-only nuclides): outside the property by its own wording
     unknown = set()
     for r in res:
-        if r['istart'] == -1 and r['accept'] and all(a is False for _, _, a in r['accept']) and i2 == 2:
+        if r['istart'] == -1 and r['accept'] and all(a[2] is False for a in r['accept']) and i2 == 2:
             unknown.add(r['name'])
     fn = D.fn
     for r in res:
